@@ -98,7 +98,7 @@ def run(rep):
     import lint
     lint.report(rep, ("constant_pair",), "dur_lit")
     forms.replay(rep, items, "c10.gen")
-    random_trace(rep, 3000 if quick else 40000)
+    random_trace(rep, 3000 if quick else 200000)
 
 
 MAXN = {"second": 10 ** 6, "minute": 10 ** 6, "hour": 10 ** 6, "day": 10 ** 6, "week": 10 ** 5, "month": 10 ** 6, "year": 10 ** 5}
